@@ -165,6 +165,10 @@ stale_errno(void)
 	static const int v[6] = { EAGAIN, EINTR, 0, ECONNRESET, EPIPE, EINPROGRESS };
 	static unsigned k;
 
+	/* only inside a case (each case is a forked child and starts the rotation at 0, so a replayed
+	 * case sees the same values); the parent's own close() calls do not advance it */
+	if (!wh.track)
+		return;
 	errno = v[k++ % 6];
 }
 
